@@ -499,7 +499,7 @@ def kspace_flow(tree: ast.Module, cname: str) -> dict:
 
 
 # --------------------------------------------------------------------------------------------------
-def crop_shape_rule(tree: ast.Module) -> list[tuple[str, str]]:
+def crop_shape_rule(tree: ast.Module, aliases: dict[str, str] | None = None) -> list[tuple[str, str]]:
     """The if / elif / else chain of `CropKspace.__call__` assigning `crop_shape`, as (condition, value) rows in
     source order (conditions and values as normalised source text; the last condition is 'else')."""
     cls = class_def(tree, "CropKspace")
@@ -519,6 +519,11 @@ def crop_shape_rule(tree: ast.Module) -> list[tuple[str, str]]:
 
     def walk(st: ast.If, prefix: str):
         def value_of(body):
+            for s_ in body:          # locals defined on the way (`crop = parse(self.crop) if … else self.crop`)
+                if isinstance(s_, ast.Assign) and isinstance(s_.targets[0], ast.Name) and s_.targets[0].id != "crop_shape":
+                    if aliases is None:
+                        raise Untranslatable(f"local `{s_.targets[0].id}` defined inside the crop_shape chain")
+                    aliases[s_.targets[0].id] = norm(s_.value)
             asg = [s for s in body if isinstance(s, ast.Assign) and ast.unparse(s.targets[0]) == "crop_shape"]
             other = [s for s in body if not isinstance(s, (ast.Assign, ast.Assert, ast.If, ast.Expr))]
             if other:
@@ -645,3 +650,38 @@ def primitive_callers(repo, pkg: str = "direct") -> list[tuple[str, str, str]]:
             elif isinstance(n, ast.Attribute) and n.attr in PRIMS and isinstance(n.value, ast.Name) and isinstance(n.ctx, ast.Load):
                 rows.append((rel, n.attr, names.get(n.value.id, f"?{n.value.id}")))
     return sorted(set(rows))
+
+
+# --------------------------------------------------------------------------------------------------
+def bbox_patch_alloc(fn: ast.FunctionDef) -> list[tuple[str, str]]:
+    """How `crop_to_bbox` allocates the padded patch, one row per assignment to `patch`: (constructor, kind) with kind
+    `full` (`X.full(size, pad_value, dtype=data.dtype)`), `scaledOnes` (`pad_value * X.ones(size, dtype=data.dtype)`) or
+    `noDtype` (an allocation that does not pass `dtype=data.dtype`)."""
+    rows = []
+    for n in ast.walk(fn):
+        if isinstance(n, ast.Assign) and len(n.targets) == 1 and isinstance(n.targets[0], ast.Name) and n.targets[0].id == "patch":
+            v = n.value
+            scaled = False
+            if isinstance(v, ast.BinOp) and isinstance(v.op, ast.Mult):
+                calls = [x for x in (v.left, v.right) if isinstance(x, ast.Call)]
+                if len(calls) != 1:
+                    raise Untranslatable(f"unexpected patch allocation `{ast.unparse(v)[:80]}`")
+                v, scaled = calls[0], True
+            if not isinstance(v, ast.Call):
+                raise Untranslatable(f"unexpected patch allocation `{ast.unparse(v)[:80]}`")
+            ctor = ast.unparse(v.func)
+            has_dtype = any(k.arg == "dtype" and ast.unparse(k.value) == "data.dtype" for k in v.keywords)
+            short = ctor.split(".")[-1]
+            if not has_dtype:
+                kind = "noDtype"
+            elif scaled and short in ("ones", "ones_like"):
+                kind = "scaledOnes"
+            elif not scaled and short == "full" and any(ast.unparse(a) == "pad_value" for a in v.args[1:2] + [k.value for k in v.keywords
+                                                                                                          if k.arg == "fill_value"]):
+                kind = "full"
+            else:
+                raise Untranslatable(f"unexpected patch allocation `{ast.unparse(n.value)[:80]}`")
+            rows.append((ctor, kind))
+    if not rows:
+        raise Untranslatable("no assignment to `patch` in crop_to_bbox")
+    return rows
